@@ -13,7 +13,11 @@
 //!                 DP optimum must equal the total of TeX's chosen sequence;
 //! * `witnesses` — hand-written minimal lists (two discardables after a break, kern break,
 //!                 discretionary followed by glue, …);
-//! * `generated` — the search.
+//! * `generated` — the search (one call of `break_line_single_attempt` per case);
+//! * `passes`    — the same lists given to `break_line_all_attempts` with independent
+//!                 `\pretolerance`, `\tolerance`, `\emergencystretch` and a hyphenator that
+//!                 inserts discretionaries: the pass that TeX §863/§873 says produces the
+//!                 answer is determined with the model and the answer is judged for that pass.
 
 use crate::engine::*;
 use crate::models::kp_eval as kp;
@@ -27,6 +31,8 @@ const PT: i32 = 65536;
 /// glyph index of the hyphen character `-`
 const HYPHEN: u8 = 8;
 const N_GLYPHS: usize = 9;
+/// bit of a glyph id that selects the second font (ids 0..=8: font 0, 16..=24: font 1)
+const FONT1: u8 = 0x10;
 
 // -------------------------------------------------------------------------------------
 // Case representation
@@ -42,14 +48,27 @@ pub struct GlueV {
 
 #[derive(Clone, Debug, PartialEq, Eq, Serialize, Deserialize)]
 pub enum Elem {
+    /// glyph id: index into the width table (low four bits, mod 9) + `FONT1` for the second font
     Char(u8),
-    Kern { w: i32, explicit: bool },
+    /// `explicit` = `\kern`; otherwise `sub` selects the non-explicit kind: 0 font kern
+    /// (`Normal`), 1 accent kern, 2 math kern (TeX's mu_glue subtype)
+    Kern {
+        w: i32,
+        explicit: bool,
+        #[serde(default)]
+        sub: u8,
+    },
 }
 
 #[derive(Clone, Debug, PartialEq, Eq, Serialize, Deserialize)]
 pub enum Node {
     Char(u8),
-    Kern { w: i32, explicit: bool },
+    Kern {
+        w: i32,
+        explicit: bool,
+        #[serde(default)]
+        sub: u8,
+    },
     Glue(GlueV),
     Penalty(i32),
     /// A discretionary; its `replace` nodes follow it in the list (replace_count = their number).
@@ -58,8 +77,11 @@ pub enum Node {
 
 #[derive(Clone, Debug, PartialEq, Eq, Serialize, Deserialize)]
 pub struct KpCase {
-    /// widths (sp) of the synthetic font: glyph i is character 'a'+i, glyph 8 is '-'
+    /// widths (sp) of the synthetic font 0: glyph i is character 'a'+i, glyph 8 is '-'
     pub glyphs: Vec<i32>,
+    /// widths of the same nine characters in font 1 (empty in old replay files: font 1 unused)
+    #[serde(default)]
+    pub glyphs2: Vec<i32>,
     /// paragraph body; the check appends `\penalty10000` and `\parfillskip` as `break_line` does
     pub nodes: Vec<Node>,
     pub par_fill_skip: GlueV,
@@ -83,11 +105,19 @@ pub struct KpCase {
 // Case -> implementation input and model input
 
 struct SynthRepo {
-    glyphs: Vec<i32>,
+    fonts: [Vec<i32>; 2],
 }
 
-fn glyph_char(i: u8) -> char {
-    let i = i as usize % N_GLYPHS;
+fn glyph_index(g: u8) -> usize {
+    (g & 0x0f) as usize % N_GLYPHS
+}
+
+fn glyph_font(g: u8) -> u32 {
+    ((g & FONT1) != 0) as u32
+}
+
+fn glyph_char(g: u8) -> char {
+    let i = glyph_index(g);
     if i == HYPHEN as usize {
         '-'
     } else {
@@ -95,13 +125,22 @@ fn glyph_char(i: u8) -> char {
     }
 }
 
+/// Width of a glyph id according to the case (model side; a glyph of a font without a width
+/// table has width 0, as `FontRepo::width` = None is treated by the breaker).
+fn glyph_width(glyphs: &[i32], glyphs2: &[i32], g: u8) -> i64 {
+    let table = if glyph_font(g) == 0 { glyphs } else { glyphs2 };
+    table.get(glyph_index(g)).copied().unwrap_or(0) as i64
+}
+
+fn ds_char(g: u8) -> ds::Char {
+    ds::Char { char: glyph_char(g), font: glyph_font(g) }
+}
+
 impl boxworks::FontRepo for SynthRepo {
     fn width(&self, c: char, font: u32) -> Option<Scaled> {
-        if font != 0 {
-            return None;
-        }
+        let table = self.fonts.get(font as usize)?;
         let i = if c == '-' { HYPHEN as usize } else { (c as u32).checked_sub('a' as u32)? as usize };
-        self.glyphs.get(i).map(|w| Scaled(*w))
+        table.get(i).map(|w| Scaled(*w))
     }
     fn height(&self, _c: char, _font: u32) -> Option<Scaled> {
         Some(Scaled(5 * PT))
@@ -133,21 +172,38 @@ fn spec(g: &GlueV) -> kp::GlueSpec {
     kp::GlueSpec { width: g.w as i64, stretch: g.st as i64, stretch_order: g.sto & 3, shrink: g.sh as i64 }
 }
 
-fn kern(w: i32, explicit: bool) -> ds::Kern {
-    ds::Kern { width: Scaled(w), kind: if explicit { ds::KernKind::Explicit } else { ds::KernKind::Normal } }
+fn kern(w: i32, explicit: bool, sub: u8) -> ds::Kern {
+    let kind = if explicit {
+        ds::KernKind::Explicit
+    } else {
+        match sub % 3 {
+            0 => ds::KernKind::Normal,
+            1 => ds::KernKind::Accent,
+            _ => ds::KernKind::Math,
+        }
+    };
+    ds::Kern { width: Scaled(w), kind }
+}
+
+fn kern_name(explicit: bool, sub: u8) -> &'static str {
+    if explicit {
+        "kern"
+    } else {
+        ["fontkern", "accentkern", "mathkern"][(sub % 3) as usize]
+    }
 }
 
 fn elem_h(e: &Elem) -> ds::Horizontal {
     match e {
-        Elem::Char(c) => ds::Horizontal::Char(ds::Char { char: glyph_char(*c), font: 0 }),
-        Elem::Kern { w, explicit } => ds::Horizontal::Kern(kern(*w, *explicit)),
+        Elem::Char(c) => ds::Horizontal::Char(ds_char(*c)),
+        Elem::Kern { w, explicit, sub } => ds::Horizontal::Kern(kern(*w, *explicit, *sub)),
     }
 }
 
 fn elem_d(e: &Elem) -> ds::DiscretionaryElem {
     match e {
-        Elem::Char(c) => ds::DiscretionaryElem::Char(ds::Char { char: glyph_char(*c), font: 0 }),
-        Elem::Kern { w, explicit } => ds::DiscretionaryElem::Kern(kern(*w, *explicit)),
+        Elem::Char(c) => ds::DiscretionaryElem::Char(ds_char(*c)),
+        Elem::Kern { w, explicit, sub } => ds::DiscretionaryElem::Kern(kern(*w, *explicit, *sub)),
     }
 }
 
@@ -155,8 +211,8 @@ fn build_list(c: &KpCase) -> Vec<ds::Horizontal> {
     let mut out = vec![];
     for n in &c.nodes {
         match n {
-            Node::Char(g) => out.push(ds::Horizontal::Char(ds::Char { char: glyph_char(*g), font: 0 })),
-            Node::Kern { w, explicit } => out.push(ds::Horizontal::Kern(kern(*w, *explicit))),
+            Node::Char(g) => out.push(ds::Horizontal::Char(ds_char(*g))),
+            Node::Kern { w, explicit, sub } => out.push(ds::Horizontal::Kern(kern(*w, *explicit, *sub))),
             Node::Glue(g) => out.push(ds::Horizontal::Glue(ds::Glue { kind: ds::GlueKind::Normal, value: glue(g) })),
             Node::Penalty(p) => out.push(ds::Horizontal::Penalty(ds::Penalty(*p))),
             Node::Disc { pre, post, replace } => {
@@ -177,13 +233,28 @@ fn build_list(c: &KpCase) -> Vec<ds::Horizontal> {
     out
 }
 
-fn impl_params(c: &KpCase) -> bkp::Params {
+/// `Params` fields that duplicate an argument of `break_line_single_attempt` (tolerance,
+/// emergency stretch) or are not a pass's business at all (`\pretolerance`, `\parfillskip`:
+/// the list already ends with its own parfillskip glue).
+#[derive(Clone, Copy)]
+struct PassFields {
+    pre_tolerance: i32,
+    tolerance: i32,
+    emergency_stretch: i32,
+    par_fill_skip: GlueV,
+}
+
+/// Values no generated case uses for the corresponding argument: a breaker that reads the
+/// field instead of its argument measures a different paragraph.
+const DECOYS: PassFields = PassFields { pre_tolerance: 3, tolerance: 7, emergency_stretch: 1000 * PT, par_fill_skip: GlueV { w: 13 * PT, st: 5 * PT, sto: 2, sh: 2 * PT } };
+
+fn impl_params(c: &KpCase, f: PassFields) -> bkp::Params {
     bkp::Params {
         adj_demerits: c.adj_demerits,
         broken_penalty: 100,
         double_hyphen_demerits: c.double_hyphen_demerits,
         club_penalty: 150,
-        emergency_stretch: Scaled(c.emergency_stretch),
+        emergency_stretch: Scaled(f.emergency_stretch),
         ex_hyphen_penalty: c.ex_hyphen_penalty,
         final_hyphen_demerits: c.final_hyphen_demerits,
         final_widow_penalty: 150,
@@ -192,10 +263,10 @@ fn impl_params(c: &KpCase) -> bkp::Params {
         left_skip: glue(&c.left_skip),
         line_penalty: c.line_penalty,
         looseness: c.looseness,
-        par_fill_skip: glue(&c.par_fill_skip),
-        pre_tolerance: c.tolerance,
+        par_fill_skip: glue(&f.par_fill_skip),
+        pre_tolerance: f.pre_tolerance,
         right_skip: glue(&c.right_skip),
-        tolerance: c.tolerance,
+        tolerance: f.tolerance,
     }
 }
 
@@ -216,7 +287,7 @@ fn model_params(c: &KpCase) -> kp::Params {
 /// The model's items are derived from the case directly (not from the boxworks list), so
 /// the model side never touches repository code.
 fn model_items(c: &KpCase) -> Vec<kp::Item> {
-    let gw = |g: u8| c.glyphs[g as usize % N_GLYPHS] as i64;
+    let gw = |g: u8| glyph_width(&c.glyphs, &c.glyphs2, g);
     let ew = |e: &Elem| match e {
         Elem::Char(g) => gw(*g),
         Elem::Kern { w, .. } => *w as i64,
@@ -226,7 +297,8 @@ fn model_items(c: &KpCase) -> Vec<kp::Item> {
     for n in &c.nodes {
         match n {
             Node::Char(g) => out.push(kp::Item::Solid(gw(*g))),
-            Node::Kern { w, explicit } => out.push(kp::Item::Kern { width: *w as i64, explicit: *explicit }),
+            // accent and math kerns are "not explicit" (tex.web tests only subtype = explicit)
+            Node::Kern { w, explicit, .. } => out.push(kp::Item::Kern { width: *w as i64, explicit: *explicit }),
             Node::Glue(g) => out.push(kp::Item::Glue(spec(g))),
             Node::Penalty(p) => out.push(kp::Item::Penalty(*p)),
             Node::Disc { pre, post, replace } => {
@@ -234,7 +306,7 @@ fn model_items(c: &KpCase) -> Vec<kp::Item> {
                 for e in replace {
                     out.push(match e {
                         Elem::Char(g) => kp::Item::Solid(gw(*g)),
-                        Elem::Kern { w, explicit } => kp::Item::Kern { width: *w as i64, explicit: *explicit },
+                        Elem::Kern { w, explicit, .. } => kp::Item::Kern { width: *w as i64, explicit: *explicit },
                     });
                 }
             }
@@ -263,12 +335,24 @@ fn glue_str(g: &GlueV) -> String {
     s
 }
 
+/// characters of font 1 are shown in upper case (the hyphen as `=`)
+fn push_glyph(s: &mut String, g: u8) {
+    let ch = glyph_char(g);
+    if glyph_font(g) == 0 {
+        s.push(ch)
+    } else if ch == '-' {
+        s.push('=')
+    } else {
+        s.push(ch.to_ascii_uppercase())
+    }
+}
+
 fn elems_str(v: &[Elem]) -> String {
     let mut s = String::new();
     for e in v {
         match e {
-            Elem::Char(c) => s.push(glyph_char(*c)),
-            Elem::Kern { w, explicit } => s.push_str(&format!("\\{}{}pt ", if *explicit { "kern" } else { "fontkern" }, pt(*w as i64))),
+            Elem::Char(c) => push_glyph(&mut s, *c),
+            Elem::Kern { w, explicit, sub } => s.push_str(&format!("\\{}{}pt ", kern_name(*explicit, *sub), pt(*w as i64))),
         }
     }
     s
@@ -282,6 +366,10 @@ fn render(c: &KpCase) -> String {
         widths.push(format!("{}={}", glyph_char(i as u8), pt(*w as i64)));
     }
     s.push_str(&format!("glyph widths (pt): {}\n", widths.join(" ")));
+    if !c.glyphs2.is_empty() {
+        let w2: Vec<String> = c.glyphs2.iter().enumerate().map(|(i, w)| format!("{}={}", glyph_char(i as u8).to_ascii_uppercase(), pt(*w as i64))).collect();
+        s.push_str(&format!("font 1 (upper case; hyphen shown as =, listed as -): {}\n", w2.join(" ")));
+    }
     s.push_str(&format!(
         "line widths: [{}]  tolerance={} emergency_stretch={}pt force_solution={} looseness={}\n",
         c.line_widths.iter().map(|w| format!("{}pt", pt(*w as i64))).collect::<Vec<_>>().join(", "),
@@ -307,11 +395,11 @@ fn render(c: &KpCase) -> String {
     for n in &c.nodes {
         match n {
             Node::Char(g) => {
-                s.push(glyph_char(*g));
+                push_glyph(&mut s, *g);
                 i += 1;
             }
-            Node::Kern { w, explicit } => {
-                s.push_str(&format!("[{i}]\\{}{}pt ", if *explicit { "kern" } else { "fontkern" }, pt(*w as i64)));
+            Node::Kern { w, explicit, sub } => {
+                s.push_str(&format!("[{i}]\\{}{}pt ", kern_name(*explicit, *sub), pt(*w as i64)));
                 i += 1;
             }
             Node::Glue(g) => {
@@ -362,8 +450,10 @@ fn describe_sequence(pass: &kp::Pass, seq: &kp::SeqEval) -> String {
 
 fn run_impl(c: &KpCase) -> Result<Option<Vec<usize>>, panics::PanicInfo> {
     let list = build_list(c);
-    let repo = SynthRepo { glyphs: c.glyphs.clone() };
-    let params = impl_params(c);
+    let repo = SynthRepo { fonts: [c.glyphs.clone(), c.glyphs2.clone()] };
+    // the pass gets its tolerance and emergency stretch as arguments; the fields of the same
+    // name hold decoys
+    let params = impl_params(c, DECOYS);
     let widths: Vec<Scaled> = c.line_widths.iter().map(|w| Scaled(*w)).collect();
     panics::catch(|| {
         let mut lb = bkp::LineBreaker { params: &params, line_widths: &widths, line_indents: &[], debug_logger: None, hyphenator: &NoHyphenation };
@@ -410,20 +500,116 @@ const SKIP_NONMONOTONE: &str = "non-monotone instance (overfull not upward close
 const SKIP_PEAK: &str = "total demerits reach TeX's awful_bad (2^30-1): TeX itself is undefined";
 const SKIP_TIE: &str = "exact demerit tie between different line counts under looseness";
 
-/// Judge the implementation's answer against one evaluator.
-fn judge(c: &KpCase, a: &Analysis, got: &Result<Option<Vec<usize>>, panics::PanicInfo>) -> Outcome {
+/// The reason, if any, for which the full oracle does not apply to an instance.
+fn skip_reason(c: &KpCase, a: &Analysis) -> Option<&'static str> {
     if !a.monotone {
-        return Outcome::Skip(SKIP_NONMONOTONE);
+        return Some(SKIP_NONMONOTONE);
     }
     if a.solution.peak + (c.adj_demerits as i64).abs() >= kp::AWFUL_BAD {
-        return Outcome::Skip(SKIP_PEAK);
+        return Some(SKIP_PEAK);
     }
-    let feasible = a.solution.feasible();
     if let Some(ch) = &a.choice {
         if c.looseness != 0 && ch.best_count_tie {
-            return Outcome::Skip(SKIP_TIE);
+            return Some(SKIP_TIE);
         }
     }
+    None
+}
+
+/// An upper bound on the total demerits TeX can accumulate along any sequence of breaks of
+/// this pass (recorded lines are within the threshold or have artificial demerits 0).
+fn worst_case_total(c: &KpCase, a: &Analysis) -> i64 {
+    let thr = c.tolerance.clamp(0, kp::INF_BAD) as i64;
+    let lb = (c.line_penalty as i64).abs() + thr;
+    let line = if lb >= 10_000 { 100_000_000 } else { lb * lb };
+    let pen = a.para.breaks.iter().filter(|b| !b.forced()).map(|b| (b.penalty as i64) * (b.penalty as i64)).max().unwrap_or(0);
+    let extra = (c.adj_demerits as i64).abs() + (c.double_hyphen_demerits as i64).abs().max((c.final_hyphen_demerits as i64).abs());
+    a.para.breaks.len() as i64 * (line + pen + extra) + (c.adj_demerits as i64).abs()
+}
+
+/// What every breaking pass of TeX guarantees whether or not the instance satisfies the
+/// preconditions of the full oracle (tex.web §851–§855: a non-final pass records a break only
+/// if the line's badness is within the threshold; §854: in the final pass the active list
+/// never becomes empty; and the exhaustive DP minimises over *every* feasible sequence):
+///
+/// * no panic (not demanded on `SKIP_PEAK` instances, where TeX's own arithmetic is undefined);
+/// * `force_solution` ⇒ `Some`;
+/// * `Some(s)` ⇒ `s` is a legal sequence (legal breakpoints, ascending, ends at the end of the
+///   list, no line across a forced break);
+/// * `Some(s)` in a non-final pass ⇒ every line of `s` is within the threshold;
+/// * every line of `s` within the threshold ⇒ the DP is feasible and total(s) ≥ its minimum;
+/// * on a monotone instance without overflow (only the looseness tie is in the way) the total of
+///   `s` is the minimum for its own number of lines (with looseness ≠ 0 every line number is a
+///   class of its own, §835).
+///
+/// `Some(message)` = one of these is violated.
+fn unconditional_checks(c: &KpCase, a: &Analysis, got: &Result<Option<Vec<usize>>, panics::PanicInfo>, reason: &'static str) -> Option<String> {
+    let got = match got {
+        Ok(g) => g,
+        Err(p) => {
+            if reason == SKIP_PEAK {
+                return None;
+            }
+            return Some(format!("break_line_single_attempt panicked at {}: {} (instance otherwise skipped: {reason})", p.site(), p.message));
+        }
+    };
+    let pass = a.pass(c);
+    let Some(breaks) = got else {
+        // §854 keeps the last active node alive in the final pass unless a total exceeds
+        // awful_bad (§855 `d<=minimal_demerits`); on a non-monotone instance TeX's totals need
+        // not be the DP's minima, so the guard is a bound on the total of any sequence at all
+        if c.force_solution && reason != SKIP_PEAK && worst_case_total(c, a) < kp::AWFUL_BAD {
+            return Some(format!("implementation returned None in the final pass (force_solution=true), TeX §854 always produces a sequence (instance otherwise skipped: {reason})"));
+        }
+        return None;
+    };
+    let seq = match pass.evaluate(breaks) {
+        Ok(s) => s,
+        Err(e) => return Some(format!("implementation returned {:?}, which is not a legal sequence: {} (instance otherwise skipped: {reason})", breaks, e)),
+    };
+    if !seq.all_feasible {
+        if !c.force_solution {
+            return Some(format!(
+                "implementation returned {:?} in a non-final pass; a line exceeds the tolerance {} (instance otherwise skipped: {reason})\n{}",
+                breaks,
+                c.tolerance,
+                describe_sequence(&pass, &seq)
+            ));
+        }
+        return None;
+    }
+    let Some(opt) = a.solution.optimum() else {
+        return Some(format!("internal: implementation found a feasible sequence {:?} the DP did not (instance otherwise skipped: {reason})", breaks));
+    };
+    if seq.total < opt {
+        return Some(format!("internal: implementation's sequence {:?} has total {} below the DP minimum {} (instance otherwise skipped: {reason})", breaks, seq.total, opt));
+    }
+    if reason == SKIP_TIE {
+        let own = a.solution.by_count.get(&seq.lines.len()).map(|e| e.min);
+        if own != Some(seq.total) {
+            return Some(format!(
+                "implementation returned {:?} with {} lines and total demerits {}; the minimum for {} lines is {:?} (line-count tie, the count itself is not judged)\n{}",
+                breaks,
+                seq.lines.len(),
+                seq.total,
+                seq.lines.len(),
+                own,
+                describe_sequence(&pass, &seq)
+            ));
+        }
+    }
+    None
+}
+
+/// Judge the implementation's answer against one evaluator.
+fn judge(c: &KpCase, a: &Analysis, got: &Result<Option<Vec<usize>>, panics::PanicInfo>) -> Outcome {
+    if let Some(reason) = skip_reason(c, a) {
+        return match unconditional_checks(c, a, got, reason) {
+            Some(msg) => Outcome::Mismatch(msg),
+            None => Outcome::Skip(reason),
+        };
+    }
+    let feasible = a.solution.feasible();
     let got = match got {
         Ok(g) => g,
         Err(p) => return Outcome::Mismatch(format!("break_line_single_attempt panicked at {}: {}", p.site(), p.message)),
@@ -566,14 +752,90 @@ fn flag_subsets(ctx: &Ctx) -> Vec<(kp::Deviations, String)> {
     out
 }
 
-fn check(ctx: &Ctx, c: &KpCase, case: &mut Case) -> Verdict {
-    if c.line_widths.is_empty() || c.glyphs.len() != N_GLYPHS {
-        return Verdict::Skip("malformed case");
+/// Class counters for the shapes of list and parameters (independent of the answer).
+fn shape_classes(c: &KpCase, case: &mut Case) {
+    let discardable = |n: &Node| matches!(n, Node::Glue(_) | Node::Penalty(_) | Node::Kern { explicit: true, .. });
+    match c.nodes.first() {
+        Some(Node::Glue(_)) => case.class("edge: list starts with glue"),
+        Some(Node::Penalty(_)) => case.class("edge: list starts with a penalty"),
+        Some(Node::Kern { explicit: true, .. }) => case.class("edge: list starts with an explicit kern"),
+        Some(Node::Disc { .. }) => case.class("edge: list starts with a discretionary"),
+        _ => {}
     }
-    let truth = analyse(c, kp::Deviations::NONE);
-    let got = run_impl(c);
+    case.class_if(c.nodes.last().map(discardable).unwrap_or(false), "edge: discardable run directly before \\penalty10000\\parfillskip");
+    case.class_if(c.nodes.windows(2).any(|w| matches!((&w[0], &w[1]), (Node::Disc { .. }, Node::Disc { .. }))), "edge: two adjacent discretionaries");
+    let mut words = 0usize;
+    let mut in_word = false;
+    for n in &c.nodes {
+        let d = discardable(n);
+        if !d && !in_word {
+            words += 1;
+        }
+        in_word = !d;
+    }
+    case.class_if(words <= 3, "edge: paragraph of 0-3 words");
+    // kern kinds
+    let special = |e: bool, sub: u8| !e && sub % 3 != 0;
+    let elem_special = |v: &Vec<Elem>| v.iter().any(|e| matches!(e, Elem::Kern { explicit, sub, .. } if special(*explicit, *sub)));
+    let mut accent_or_math = false;
+    for n in &c.nodes {
+        match n {
+            Node::Kern { explicit, sub, .. } => accent_or_math |= special(*explicit, *sub),
+            Node::Disc { pre, post, replace } => accent_or_math |= elem_special(pre) || elem_special(post) || elem_special(replace),
+            _ => {}
+        }
+    }
+    case.class_if(accent_or_math, "kern kind: accent or math kern in the list");
+    case.class_if(
+        c.nodes.windows(2).any(|w| matches!((&w[0], &w[1]), (Node::Kern { explicit, sub, .. }, Node::Glue(_)) if special(*explicit, *sub))),
+        "kern kind: accent or math kern directly before glue (glue must be a breakpoint, kern must not)",
+    );
+    case.class_if(
+        c.nodes.windows(2).any(|w| discardable(&w[0]) && matches!(&w[1], Node::Kern { explicit, sub, .. } if special(*explicit, *sub))),
+        "kern kind: accent or math kern directly after a discardable (must end the §837 skip)",
+    );
+    // fonts
+    let f1 = |g: &u8| glyph_font(*g) == 1;
+    let elem_f1 = |v: &Vec<Elem>| v.iter().any(|e| matches!(e, Elem::Char(g) if f1(g)));
+    case.class_if(c.nodes.iter().any(|n| matches!(n, Node::Char(g) if f1(g))), "font: list has characters of font 1");
+    case.class_if(c.nodes.iter().any(|n| matches!(n, Node::Disc { pre, post, .. } if elem_f1(pre) || elem_f1(post))), "font: pre/post-break text in font 1");
+    case.class_if(c.nodes.iter().any(|n| matches!(n, Node::Disc { replace, .. } if elem_f1(replace))), "font: replaced characters in font 1");
+    // dimensions
+    let gmax = c.glyphs.iter().chain(c.glyphs2.iter()).copied().max().unwrap_or(0);
+    case.class_if(gmax > 8 * PT && gmax <= 32 * PT, "dimensions scaled x4");
+    case.class_if(gmax > 32 * PT, "dimensions scaled x16");
+    let glues = || c.nodes.iter().filter_map(|n| if let Node::Glue(g) = n { Some(g) } else { None });
+    case.class_if(glues().any(|g| g.w < 0), "negative glue component: width");
+    case.class_if(glues().any(|g| g.st < 0 && g.sto == 0), "negative glue component: finite stretch");
+    case.class_if(glues().any(|g| g.st < 0 && g.sto != 0), "negative glue component: infinite stretch");
+    case.class_if(glues().any(|g| g.sh < 0), "negative glue component: shrink");
+    case.class_if(c.par_fill_skip.w != 0 || c.par_fill_skip.sh != 0, "\\parfillskip with width or shrink");
+    case.class_if(c.left_skip.sto != 0 || c.left_skip.w < 0 || c.right_skip.w < 0, "infinite \\leftskip or negative \\leftskip/\\rightskip width");
+    let distinct: std::collections::BTreeSet<i32> = c.line_widths.iter().copied().collect();
+    case.class_if(c.line_widths.len() >= 4, "line widths: 4-6 entries");
+    case.class_if(distinct.len() >= 4 && c.looseness == 0, "line widths: >= 4 distinct, looseness 0");
+    case.class_if(c.tolerance < 0, "tolerance < 0");
+}
 
-    // classes describing the instance
+fn branch_classes(mask: u16, case: &mut Case, returned: bool) {
+    use kp::branch as b;
+    let names: [(u16, &'static str, &'static str); 8] = [
+        (b::STRETCH_LARGE_DIVIDE, "badness (feasible candidate line): shortfall > 110pt, stretch >= 25.4pt (t/(s/297))", "badness (returned line): shortfall > 110pt, stretch >= 25.4pt (t/(s/297))"),
+        (b::STRETCH_LARGE_SHORTCUT, "badness (feasible candidate line): shortfall > 110pt, 0 < stretch < 25.4pt (inf_bad)", "badness (returned line): shortfall > 110pt, 0 < stretch < 25.4pt (inf_bad)"),
+        (b::STRETCH_NONPOSITIVE, "badness (feasible candidate line): underfull with total stretch <= 0 (inf_bad)", "badness (returned line): underfull with total stretch <= 0 (inf_bad)"),
+        (b::STRETCH_SMALL, "badness (feasible candidate line): 0 < shortfall <= 110pt, finite stretch", "badness (returned line): 0 < shortfall <= 110pt, finite stretch"),
+        (b::EXACT, "badness (feasible candidate line): exact fit", "badness (returned line): exact fit"),
+        (b::SHRINK, "badness (feasible candidate line): shrinks", "badness (returned line): shrinks"),
+        (b::NEGATIVE_SHRINK_TOTAL, "badness (feasible candidate line): negative total shrink", "badness (returned line): negative total shrink"),
+        (b::NEGATIVE_STRETCH_TOTAL, "badness (feasible candidate line): negative total finite stretch", "badness (returned line): negative total finite stretch"),
+    ];
+    for (bit, cand, ret) in names {
+        case.class_if(mask & bit != 0, if returned { ret } else { cand });
+    }
+}
+
+/// Class counters of an instance as one pass sees it.
+fn instance_classes(c: &KpCase, truth: &Analysis, case: &mut Case) {
     let nb = truth.para.breaks.len();
     case.class(match nb {
         0..=2 => "breakpoints: <3",
@@ -593,72 +855,313 @@ fn check(ctx: &Ctx, c: &KpCase, case: &mut Case) -> Verdict {
     let dev_para = kp::Paragraph::scan(&truth.para.items, &truth.params, all_devs);
     let list_touches_deviation = dev_para.breaks != truth.para.breaks;
     case.class_if(!list_touches_deviation, "list measured identically under every named deviation");
+    // cancelling infinite stretch: some stretch of the list is infinite, yet a line exists in
+    // which it sums to zero
+    let n = truth.para.items.len();
+    let cancels = (1..4).any(|o| truth.para.prefix.iter().any(|t| t.stretch[o] != 0) && truth.para.prefix[n].stretch[o] == 0);
+    case.class_if(cancels, "infinite stretch of the whole list cancels to zero");
+    shape_classes(c, case);
+    branch_classes(truth.solution.feasible_branches, case, false);
+}
+
+/// Class counters of an answer the oracle agreed with.
+fn agree_classes(c: &KpCase, truth: &Analysis, seq: &Option<kp::SeqEval>, case: &mut Case) {
+    let feasible = truth.solution.feasible();
+    case.class(if feasible { "feasible" } else { "infeasible" });
+    if feasible {
+        case.class_if(truth.solution.by_count.len() >= 2, "several feasible line counts");
+        if let Some(ch) = &truth.choice {
+            case.class_if(c.looseness != 0 && ch.exact && ch.count != ch.best_count, "looseness changes the line count");
+            case.class_if(c.looseness != 0 && !ch.exact, "looseness not attainable");
+        }
+    }
+    if let Some(seq) = seq {
+        case.class(match seq.lines.len() {
+            1 => "lines: 1",
+            2 => "lines: 2",
+            3..=4 => "lines: 3-4",
+            5..=8 => "lines: 5-8",
+            _ => "lines: >8",
+        });
+        if feasible {
+            let fits: std::collections::BTreeSet<kp::Fit> = seq.lines.iter().map(|l| l.eval.fit).collect();
+            case.class_if(fits.len() >= 2, "mixed fitness classes");
+            case.class_if(seq.lines.windows(2).any(|w| (w[0].eval.fit as i32 - w[1].eval.fit as i32).abs() > 1), "adjacent lines with incompatible classes");
+            let discs: Vec<bool> = seq.lines.iter().map(|l| truth.para.breaks[l.to].kind == kp::BreakKind::Disc).collect();
+            case.class_if(discs.iter().any(|d| *d), "breaks at a discretionary");
+            case.class_if(discs.windows(2).any(|w| w[0] && w[1]), "two consecutive hyphenated lines");
+            case.class_if(seq.lines.len() >= 2 && discs[seq.lines.len() - 2], "hyphenated line before the last");
+            case.class_if(seq.lines.iter().any(|l| truth.para.breaks[l.to].kind == kp::BreakKind::Kern), "breaks at a kern");
+            case.class_if(seq.lines.iter().any(|l| truth.para.breaks[l.to].kind == kp::BreakKind::Penalty), "breaks at a penalty");
+            let mut mask = 0u16;
+            for l in &seq.lines {
+                mask |= kp::badness_branch(&l.eval.totals, l.eval.width);
+            }
+            branch_classes(mask, case, true);
+            let n = truth.para.items.len();
+            case.class_if(truth.para.breaks[seq.lines[0].to].pos == 0 && n > 0, "returned: first line ends at node 0");
+            if let Some(a) = seq.lines.last().and_then(|l| l.from) {
+                case.class_if(truth.para.breaks[a].next_start == truth.para.prefix[n], "returned: last line has no material (\\parfillskip discarded after the break, §837)");
+            }
+            let distinct: std::collections::BTreeSet<i32> = c.line_widths.iter().copied().collect();
+            case.class_if(distinct.len() >= 4 && c.looseness == 0 && seq.lines.len() >= 5, "line widths: >= 4 distinct, looseness 0, >= 5 lines returned");
+        } else {
+            case.class("final pass on an infeasible paragraph (legality only)");
+        }
+    }
+}
+
+/// After a mismatch against TeX: is it excused by a listed known deviation?
+fn excuse(ctx: &Ctx, msg: String, rendering: String, rejudge: &dyn Fn(kp::Deviations) -> Outcome) -> Verdict {
+    // Listed known deviations: excused only if the deviating evaluator agrees with
+    // the implementation completely.
+    for (dev, sig) in flag_subsets(ctx) {
+        match rejudge(dev) {
+            Outcome::Agree { .. } => return Verdict::Known(sig),
+            Outcome::Skip(_) | Outcome::Mismatch(_) => {}
+        }
+    }
+    // A listed deviation can make the implementation's own view of the list
+    // non-monotone (or overflow its 32-bit totals); its pruning is then not exact
+    // and nothing can be concluded from this instance.
+    for (dev, _sig) in flag_subsets(ctx) {
+        if let Outcome::Skip(_) = rejudge(dev) {
+            return Verdict::Skip("instance is outside the property under a listed deviation of the implementation's measurement");
+        }
+    }
+    Verdict::Fail(format!("{}\n{}", msg, rendering))
+}
+
+fn malformed(c: &KpCase) -> bool {
+    c.line_widths.is_empty() || c.glyphs.len() != N_GLYPHS || !(c.glyphs2.is_empty() || c.glyphs2.len() == N_GLYPHS)
+}
+
+/// Diagnostic switch for sensitivity experiments only: with VP_C04_SKIPPED_ONLY=1 the sub-checks
+/// `witnesses` and `generated` judge nothing but the instances the full oracle skips (to show
+/// that the unconditional checks on them are live).
+fn diag_skipped_only() -> bool {
+    static F: std::sync::OnceLock<bool> = std::sync::OnceLock::new();
+    *F.get_or_init(|| std::env::var("VP_C04_SKIPPED_ONLY").map(|v| v == "1").unwrap_or(false))
+}
+
+fn check(ctx: &Ctx, c: &KpCase, case: &mut Case) -> Verdict {
+    if malformed(c) {
+        return Verdict::Skip("malformed case");
+    }
+    let truth = analyse(c, kp::Deviations::NONE);
+    let got = run_impl(c);
+    if !case.replay && diag_skipped_only() && skip_reason(c, &truth).is_none() {
+        return Verdict::Skip("diagnostic run: only skipped instances are judged");
+    }
+    instance_classes(c, &truth, case);
 
     let outcome = judge(c, &truth, &got);
     match outcome {
         Outcome::Skip(r) => {
             case.class_if(got.is_err(), "implementation panicked on a skipped instance");
+            case.class_if(matches!(got, Ok(Some(_))), "skipped instance: returned sequence checked for legality, feasibility and total >= optimum");
             Verdict::Skip(r)
         }
         Outcome::Agree { nontrivial, seq } => {
-            let feasible = truth.solution.feasible();
-            case.class(if feasible { "feasible" } else { "infeasible" });
-            if feasible {
-                case.class_if(truth.solution.by_count.len() >= 2, "several feasible line counts");
-                if let Some(ch) = &truth.choice {
-                    case.class_if(c.looseness != 0 && ch.exact && ch.count != ch.best_count, "looseness changes the line count");
-                    case.class_if(c.looseness != 0 && !ch.exact, "looseness not attainable");
-                }
-            }
-            if let Some(seq) = &seq {
-                case.class(match seq.lines.len() {
-                    1 => "lines: 1",
-                    2 => "lines: 2",
-                    3..=4 => "lines: 3-4",
-                    5..=8 => "lines: 5-8",
-                    _ => "lines: >8",
-                });
-                if feasible {
-                    let fits: std::collections::BTreeSet<kp::Fit> = seq.lines.iter().map(|l| l.eval.fit).collect();
-                    case.class_if(fits.len() >= 2, "mixed fitness classes");
-                    case.class_if(seq.lines.windows(2).any(|w| (w[0].eval.fit as i32 - w[1].eval.fit as i32).abs() > 1), "adjacent lines with incompatible classes");
-                    let discs: Vec<bool> = seq.lines.iter().map(|l| truth.para.breaks[l.to].kind == kp::BreakKind::Disc).collect();
-                    case.class_if(discs.iter().any(|d| *d), "breaks at a discretionary");
-                    case.class_if(discs.windows(2).any(|w| w[0] && w[1]), "two consecutive hyphenated lines");
-                    case.class_if(seq.lines.len() >= 2 && discs[seq.lines.len() - 2], "hyphenated line before the last");
-                    case.class_if(seq.lines.iter().any(|l| truth.para.breaks[l.to].kind == kp::BreakKind::Kern), "breaks at a kern");
-                    case.class_if(seq.lines.iter().any(|l| truth.para.breaks[l.to].kind == kp::BreakKind::Penalty), "breaks at a penalty");
-                } else {
-                    case.class("final pass on an infeasible paragraph (legality only)");
-                }
-            }
+            agree_classes(c, &truth, &seq, case);
             if nontrivial {
                 case.class("non-trivial");
                 case.note = Some(render(c));
             }
             Verdict::pass(nontrivial)
         }
-        Outcome::Mismatch(msg) => {
-            // Listed known deviations: excused only if the deviating evaluator agrees with
-            // the implementation completely.
-            for (dev, sig) in flag_subsets(ctx) {
-                let alt = analyse(c, dev);
-                match judge(c, &alt, &got) {
-                    Outcome::Agree { .. } => return Verdict::Known(sig),
-                    Outcome::Skip(_) | Outcome::Mismatch(_) => {}
-                }
+        Outcome::Mismatch(msg) => excuse(ctx, msg, render(c), &|dev| judge(c, &analyse(c, dev), &got)),
+    }
+}
+
+// -------------------------------------------------------------------------------------
+// Pass sequencing (`break_line_all_attempts`, tex.web §863 and §873)
+
+/// A paragraph for `break_line_all_attempts`. `case.tolerance` is `\tolerance`,
+/// `case.emergency_stretch` is `\emergencystretch` (any sign); `case.force_solution` is unused.
+#[derive(Clone, Debug, PartialEq, Eq, Serialize, Deserialize)]
+pub struct PassCase {
+    pub case: KpCase,
+    pub pre_tolerance: i32,
+    /// the hyphenator inserts `\discretionary{-}{}{}` after the second character of every
+    /// run of four or more characters (otherwise it leaves the list alone)
+    pub hyphenate: bool,
+}
+
+/// What the synthetic hyphenator does, on the case representation.
+fn hyphenate_nodes(nodes: &[Node]) -> Vec<Node> {
+    let mut out = Vec::with_capacity(nodes.len() + 8);
+    let mut i = 0;
+    while i < nodes.len() {
+        if let Node::Char(_) = nodes[i] {
+            let mut j = i;
+            while j < nodes.len() && matches!(nodes[j], Node::Char(_)) {
+                j += 1;
             }
-            // A listed deviation can make the implementation's own view of the list
-            // non-monotone (or overflow its 32-bit totals); its pruning is then not exact
-            // and nothing can be concluded from this instance.
-            for (dev, _sig) in flag_subsets(ctx) {
-                let alt = analyse(c, dev);
-                if let Outcome::Skip(_) = judge(c, &alt, &got) {
-                    return Verdict::Skip("instance is outside the property under a listed deviation of the implementation's measurement");
+            for (k, n) in nodes[i..j].iter().enumerate() {
+                if k == 2 && j - i >= 4 {
+                    let font = if let Node::Char(g) = nodes[i] { g & FONT1 } else { 0 };
+                    out.push(Node::Disc { pre: vec![Elem::Char(HYPHEN | font)], post: vec![], replace: vec![] });
                 }
+                out.push(n.clone());
             }
-            Verdict::Fail(format!("{}\n{}", msg, render(c)))
+            i = j;
+        } else {
+            out.push(nodes[i].clone());
+            i += 1;
         }
+    }
+    out
+}
+
+/// Replaces the list by the prepared hyphenated one (the paragraph tail included).
+struct PreparedHyphenator {
+    list: Vec<ds::Horizontal>,
+}
+
+impl boxworks::Hyphenator for PreparedHyphenator {
+    fn hyphenate(&self, list: &mut Vec<ds::Horizontal>) {
+        *list = self.list.clone();
+    }
+}
+
+/// One pass of the sequence tex.web §863/§873 prescribes.
+#[derive(Clone, Debug)]
+struct PassSpec {
+    /// 1 = `\pretolerance` pass, 2 = `\tolerance` pass, 3 = emergency pass
+    number: u8,
+    case: KpCase,
+}
+
+/// §863: `threshold:=pretolerance; if threshold>=0 then … second_pass:=false; final_pass:=false
+/// else begin threshold:=tolerance; second_pass:=true; final_pass:=(emergency_stretch<=0) end`;
+/// at the end of the same loop, after a failed first pass `threshold:=tolerance;
+/// second_pass:=true; final_pass:=(emergency_stretch<=0)`, after a failed second pass
+/// `background[2]:=background[2]+emergency_stretch; final_pass:=true`. A pass ends the loop
+/// (§873) when active nodes remain and `looseness=0`, or `actual_looseness=looseness`, or
+/// `final_pass`. Hyphenation happens from the second pass on (§863 `if second_pass then …`,
+/// §866 `if second_pass and auto_breaking`).
+fn pass_sequence(pc: &PassCase) -> Vec<PassSpec> {
+    let c = &pc.case;
+    let hyphenated = if pc.hyphenate { hyphenate_nodes(&c.nodes) } else { c.nodes.clone() };
+    let mut out = vec![];
+    if pc.pre_tolerance >= 0 {
+        out.push(PassSpec { number: 1, case: KpCase { tolerance: pc.pre_tolerance, emergency_stretch: 0, force_solution: false, ..c.clone() } });
+    }
+    let second_is_final = c.emergency_stretch <= 0;
+    out.push(PassSpec { number: 2, case: KpCase { nodes: hyphenated.clone(), emergency_stretch: 0, force_solution: second_is_final, ..c.clone() } });
+    if !second_is_final {
+        out.push(PassSpec { number: 3, case: KpCase { nodes: hyphenated, force_solution: true, ..c.clone() } });
+    }
+    out
+}
+
+fn run_impl_passes(pc: &PassCase) -> Result<Vec<usize>, panics::PanicInfo> {
+    let c = &pc.case;
+    let mut list = build_list(c);
+    let hyphenator = PreparedHyphenator { list: build_list(&KpCase { nodes: if pc.hyphenate { hyphenate_nodes(&c.nodes) } else { c.nodes.clone() }, ..c.clone() }) };
+    let repo = SynthRepo { fonts: [c.glyphs.clone(), c.glyphs2.clone()] };
+    let params = impl_params(c, PassFields { pre_tolerance: pc.pre_tolerance, tolerance: c.tolerance, emergency_stretch: c.emergency_stretch, par_fill_skip: c.par_fill_skip });
+    let widths: Vec<Scaled> = c.line_widths.iter().map(|w| Scaled(*w)).collect();
+    panics::catch(|| {
+        let mut vlist = vec![];
+        let mut lb = bkp::LineBreaker { params: &params, line_widths: &widths, line_indents: &[], debug_logger: None, hyphenator: &hyphenator };
+        lb.break_line_all_attempts(&repo, &hyphenator, &mut vlist, &mut list)
+    })
+}
+
+/// Would this pass, according to the evaluator, end with a sequence (`Ok(true)`), fail
+/// (`Ok(false)`), or is that not decidable by the oracle (`Err(reason)`)?
+fn pass_succeeds(c: &KpCase, a: &Analysis) -> Result<bool, &'static str> {
+    if c.force_solution {
+        return Ok(true);
+    }
+    // a pass without any feasible sequence fails whatever the shape of the instance: every
+    // recorded break is within the threshold (§851–§855)
+    if !a.solution.feasible() {
+        return Ok(false);
+    }
+    if let Some(r) = skip_reason(c, a) {
+        return Err(r);
+    }
+    Ok(c.looseness == 0 || a.choice.as_ref().unwrap().exact)
+}
+
+/// Judge the answer of `break_line_all_attempts` against one evaluator: find the pass that
+/// produces the answer, then judge the answer as that pass's.
+fn judge_passes(pc: &PassCase, dev: kp::Deviations, got: &Result<Vec<usize>, panics::PanicInfo>) -> (Outcome, Option<(PassSpec, Analysis)>) {
+    let got1: Result<Option<Vec<usize>>, panics::PanicInfo> = match got {
+        Ok(v) => Ok(Some(v.clone())),
+        Err(p) => Err(p.clone()),
+    };
+    for spec in pass_sequence(pc) {
+        let a = analyse(&spec.case, dev);
+        match pass_succeeds(&spec.case, &a) {
+            Err(r) => return (Outcome::Skip(r), None),
+            Ok(false) => continue,
+            Ok(true) => {
+                let o = match judge(&spec.case, &a, &got1) {
+                    Outcome::Mismatch(m) => Outcome::Mismatch(format!(
+                        "break_line_all_attempts: TeX §863/§873 produces the answer in pass {} (tolerance {}, emergency stretch {}pt in the background, final={}{})\n{}",
+                        spec.number,
+                        spec.case.tolerance,
+                        pt(spec.case.emergency_stretch as i64),
+                        spec.case.force_solution,
+                        if spec.number > 1 && pc.hyphenate { ", hyphenated list" } else { "" },
+                        m
+                    )),
+                    o => o,
+                };
+                return (o, Some((spec, a)));
+            }
+        }
+    }
+    unreachable!("the last pass of the sequence is final")
+}
+
+fn render_passes(pc: &PassCase) -> String {
+    let mut s = format!("\\pretolerance={} \\tolerance={} \\emergencystretch={}pt hyphenator active: {}\n", pc.pre_tolerance, pc.case.tolerance, pt(pc.case.emergency_stretch as i64), pc.hyphenate);
+    s.push_str(&render(&pc.case));
+    if pc.hyphenate {
+        s.push_str("\nfrom the second pass on:\n");
+        s.push_str(&render(&KpCase { nodes: hyphenate_nodes(&pc.case.nodes), ..pc.case.clone() }));
+    }
+    s
+}
+
+fn check_passes(ctx: &Ctx, pc: &PassCase, case: &mut Case) -> Verdict {
+    if malformed(&pc.case) {
+        return Verdict::Skip("malformed case");
+    }
+    let got = run_impl_passes(pc);
+    case.class_if(pc.pre_tolerance < 0, "passes: \\pretolerance < 0 (no first pass)");
+    case.class_if(pc.case.emergency_stretch < 0, "passes: \\emergencystretch < 0 (second pass is final)");
+    case.class_if(pc.case.emergency_stretch > 0, "passes: \\emergencystretch > 0");
+    case.class_if(pc.hyphenate && hyphenate_nodes(&pc.case.nodes) != pc.case.nodes, "passes: hyphenator changes the list");
+    let (outcome, decided) = judge_passes(pc, kp::Deviations::NONE, &got);
+    if let Some((spec, a)) = &decided {
+        case.class(match (spec.number, spec.case.force_solution) {
+            (1, _) => "passes: answer from pass 1 (\\pretolerance)",
+            (2, false) => "passes: answer from pass 2 (\\tolerance), not final",
+            (2, true) => "passes: answer from pass 2 (\\tolerance), final",
+            _ => "passes: answer from pass 3 (emergency)",
+        });
+        instance_classes(&spec.case, a, case);
+    }
+    match outcome {
+        Outcome::Skip(r) => Verdict::Skip(r),
+        Outcome::Agree { nontrivial, seq } => {
+            let (spec, a) = decided.as_ref().unwrap();
+            agree_classes(&spec.case, a, &seq, case);
+            // non-trivial: as for a single pass, judged on the pass that produces the answer
+            let nt = nontrivial;
+            if nt {
+                case.class("non-trivial");
+                case.note = Some(render_passes(pc));
+            }
+            Verdict::pass(nt)
+        }
+        Outcome::Mismatch(msg) => excuse(ctx, msg, render_passes(pc), &|dev| judge_passes(pc, dev, &got).0),
     }
 }
 
@@ -675,8 +1178,8 @@ fn grain_round(v: i32, grain: i32) -> i32 {
 }
 
 fn glue_strategy() -> BoxedStrategy<GlueV> {
-    (2 * PT..=5 * PT, 0..=3 * PT, 0u8..20, 0..=2 * PT)
-        .prop_map(|(w, st, sel, sh)| {
+    (2 * PT..=5 * PT, 0..=3 * PT, 0u8..20, 0..=2 * PT, 0u8..200)
+        .prop_map(|(w, st, sel, sh, odd)| {
             let sto = match sel {
                 0 => 1,
                 1 => {
@@ -688,7 +1191,22 @@ fn glue_strategy() -> BoxedStrategy<GlueV> {
                 }
                 _ => 0,
             };
-            GlueV { w, st, sto, sh }
+            let mut g = GlueV { w, st, sto, sh };
+            // half of the infinite glue is exactly 1fil/1fill/1filll so that a negative one can
+            // cancel it
+            if sto != 0 && odd % 2 == 0 {
+                g.st = PT;
+            }
+            // 3.5%: one component negated
+            match odd {
+                0 | 1 => g.w = -g.w / 2,
+                2 | 3 => g.st = -g.st,
+                4 | 5 => g.sh = -g.sh,
+                // \hskip 0pt plus -1fil
+                6 => g = GlueV { w: 0, st: -PT, sto: 1, sh: 0 },
+                _ => {}
+            }
+            g
         })
         .boxed()
 }
@@ -697,11 +1215,21 @@ fn penalty_strategy() -> BoxedStrategy<i32> {
     prop_oneof![2 => Just(-10000), 1 => Just(-20000), 8 => Just(-50), 8 => Just(0), 8 => Just(50), 2 => Just(9999), 4 => Just(10000), 1 => Just(20000)].boxed()
 }
 
+/// kind of a non-explicit kern: font kern 10, accent kern 1, math kern 1
+fn sub_strategy() -> BoxedStrategy<u8> {
+    prop_oneof![10 => Just(0u8), 1 => Just(1u8), 1 => Just(2u8)].boxed()
+}
+
+/// font bit of a glyph id: font 1 in one of six
+fn font_strategy() -> BoxedStrategy<u8> {
+    prop_oneof![5 => Just(0u8), 1 => Just(FONT1)].boxed()
+}
+
 fn elem_strategy(wild: bool) -> BoxedStrategy<Elem> {
-    let ch = (0u8..8).prop_map(Elem::Char);
-    let k = prop_oneof![4 => 0..=2 * PT, 1 => -PT..0].prop_map(|w| Elem::Kern { w, explicit: false });
+    let ch = (0u8..8, font_strategy()).prop_map(|(c, f)| Elem::Char(c | f));
+    let k = (prop_oneof![4 => 0..=2 * PT, 1 => -PT..0], sub_strategy()).prop_map(|(w, sub)| Elem::Kern { w, explicit: false, sub });
     if wild {
-        let ke = prop_oneof![4 => 0..=2 * PT, 1 => -PT / 2..0].prop_map(|w| Elem::Kern { w, explicit: true });
+        let ke = prop_oneof![4 => 0..=2 * PT, 1 => -PT / 2..0].prop_map(|w| Elem::Kern { w, explicit: true, sub: 0 });
         prop_oneof![10 => ch, 2 => k, 1 => ke].boxed()
     } else {
         prop_oneof![10 => ch, 2 => k].boxed()
@@ -710,22 +1238,29 @@ fn elem_strategy(wild: bool) -> BoxedStrategy<Elem> {
 
 fn disc_strategy(wild: bool) -> BoxedStrategy<Node> {
     let pre = prop_oneof![
-        5 => Just(vec![Elem::Char(HYPHEN)]),
+        5 => font_strategy().prop_map(|f| vec![Elem::Char(HYPHEN | f)]),
         3 => Just(vec![]),
-        1 => (0u8..8).prop_map(|c| vec![Elem::Char(c), Elem::Char(HYPHEN)]),
+        1 => (0u8..8, font_strategy()).prop_map(|(c, f)| vec![Elem::Char(c | f), Elem::Char(HYPHEN | f)]),
     ];
     let post = prop_oneof![5 => Just(vec![]), 3 => prop::collection::vec(elem_strategy(wild), 1..=1), 2 => prop::collection::vec(elem_strategy(wild), 2..=2)];
     let replace = prop_oneof![6 => Just(vec![]), 2 => prop::collection::vec(elem_strategy(wild), 1..=1), 2 => prop::collection::vec(elem_strategy(wild), 2..=2)];
     (pre, post, replace).prop_map(|(pre, post, replace)| Node::Disc { pre, post, replace }).boxed()
 }
 
-/// 1–4 characters with an occasional font kern between them.
+/// 1–4 characters of one font with an occasional font (rarely accent or math) kern between
+/// them or at the end (then the kern may stand directly before glue).
 fn chars_strategy() -> BoxedStrategy<Vec<Node>> {
-    prop::collection::vec(prop_oneof![14 => (0u8..8).prop_map(Node::Char), 1 => prop_oneof![4 => 0..=PT, 1 => -PT / 2..0].prop_map(|w| Node::Kern { w, explicit: false })], 1..=4)
-        .prop_map(|mut v| {
+    let k = (prop_oneof![4 => 0..=PT, 1 => -PT / 2..0], sub_strategy()).prop_map(|(w, sub)| Node::Kern { w, explicit: false, sub });
+    (prop::collection::vec(prop_oneof![14 => (0u8..8).prop_map(Node::Char), 1 => k], 1..=4), font_strategy())
+        .prop_map(|(mut v, font)| {
             // a word fragment starts with a character
             if !matches!(v[0], Node::Char(_)) {
                 v[0] = Node::Char(0);
+            }
+            for n in v.iter_mut() {
+                if let Node::Char(g) = n {
+                    *g |= font;
+                }
             }
             v
         })
@@ -733,14 +1268,26 @@ fn chars_strategy() -> BoxedStrategy<Vec<Node>> {
 }
 
 fn word_strategy(wild: bool) -> BoxedStrategy<Vec<Node>> {
-    let tail = prop::collection::vec((disc_strategy(wild), chars_strategy()), 0..=2);
+    // a discretionary, in 5% directly followed by a second one
+    let second = prop_oneof![19 => Just(None), 1 => disc_strategy(wild).prop_map(Some)];
+    let tail = prop::collection::vec((disc_strategy(wild), second, chars_strategy()), 0..=2);
     let tail = prop_oneof![5 => Just(vec![]), 4 => tail];
     let trailing = if wild { prop_oneof![8 => Just(None), 1 => disc_strategy(wild).prop_map(Some)].boxed() } else { Just(None).boxed() };
-    (chars_strategy(), tail, trailing)
-        .prop_map(|(head, tail, trailing)| {
-            let mut v = head;
-            for (d, cs) in tail {
+    // 4%: the word starts with a non-explicit kern (as an accented letter does, §1125): such a
+    // kern stands directly after the separator and must end the §837 run of discardables
+    let leading = prop_oneof![
+        24 => Just(None),
+        1 => (prop_oneof![4 => 0..=2 * PT, 1 => -PT / 2..0], 0u8..3).prop_map(|(w, sub)| Some(Node::Kern { w, explicit: false, sub })),
+    ];
+    (chars_strategy(), tail, trailing, leading)
+        .prop_map(|(head, tail, trailing, leading)| {
+            let mut v: Vec<Node> = leading.into_iter().collect();
+            v.extend(head);
+            for (d, d2, cs) in tail {
                 v.push(d);
+                if let Some(d2) = d2 {
+                    v.push(d2);
+                }
                 v.extend(cs);
             }
             if let Some(d) = trailing {
@@ -759,7 +1306,7 @@ fn separator_strategy(wild: bool) -> BoxedStrategy<Vec<Node>> {
         // a single glue, or a single penalty directly between two words
         return prop_oneof![9 => g().prop_map(|n| vec![n]), 1 => p().prop_map(|n| vec![n])].boxed();
     }
-    let k = || prop_oneof![5 => 0..=3 * PT, 1 => -PT / 2..0].prop_map(|w| Node::Kern { w, explicit: true });
+    let k = || prop_oneof![5 => 0..=3 * PT, 1 => -PT / 2..0].prop_map(|w| Node::Kern { w, explicit: true, sub: 0 });
     let item = move || prop_oneof![12 => g(), 5 => p(), 2 => k()];
     prop_oneof![
         8 => g().prop_map(|n| vec![n]),
@@ -772,16 +1319,32 @@ fn separator_strategy(wild: bool) -> BoxedStrategy<Vec<Node>> {
     .boxed()
 }
 
-/// Body of the paragraph and its number of words.
+/// Body of the paragraph and its number of words. 10% of the bodies have 1–3 words, 10% start
+/// with a separator (glue, penalty, explicit kern, runs of them) or a discretionary instead of a
+/// character, 10% end with a separator (which then stands directly before the
+/// `\penalty10000\parfillskip` tail; `break_line` removes at most one trailing glue, so
+/// `glue glue`, `glue penalty` or `kern` tails are real).
 fn body_strategy(wild: bool) -> BoxedStrategy<(Vec<Node>, usize)> {
-    (word_strategy(wild), prop::collection::vec((separator_strategy(wild), word_strategy(wild)), 3..=21))
-        .prop_map(|(first, rest)| {
+    let rest = prop_oneof![
+        1 => prop::collection::vec((separator_strategy(wild), word_strategy(wild)), 0..=2),
+        9 => prop::collection::vec((separator_strategy(wild), word_strategy(wild)), 3..=21),
+    ];
+    let lead = prop_oneof![
+        18 => Just(vec![]),
+        1 => separator_strategy(wild),
+        1 => disc_strategy(wild).prop_map(|d| vec![d]),
+    ];
+    let trail = prop_oneof![9 => Just(vec![]), 1 => separator_strategy(wild)];
+    (lead, word_strategy(wild), rest, trail)
+        .prop_map(|(lead, first, rest, trail)| {
             let words = rest.len() + 1;
-            let mut v = first;
+            let mut v = lead;
+            v.extend(first);
             for (s, w) in rest {
                 v.extend(s);
                 v.extend(w);
             }
+            v.extend(trail);
             (v, words)
         })
         .boxed()
@@ -794,10 +1357,19 @@ fn skip_strategy(right: bool) -> BoxedStrategy<GlueV> {
             2 => (0..=10 * PT, 0..=20 * PT).prop_map(|(w, st)| GlueV { w, st, sto: 0, sh: 0 }),
             1 => (0..=3 * PT, 0..=3 * PT, 0..=2 * PT).prop_map(|(w, st, sh)| GlueV { w, st, sto: 0, sh }),
             1 => (0..=2 * PT).prop_map(|st| GlueV { w: 0, st, sto: 1, sh: 0 }),
+            // negative width (a line wider than \hsize is allowed)
+            1 => (-5 * PT..0, 0..=3 * PT).prop_map(|(w, st)| GlueV { w, st, sto: 0, sh: 0 }),
         ]
         .boxed()
     } else {
-        prop_oneof![10 => Just(GlueV::default()), 2 => (0..=10 * PT, 0..=3 * PT, 0..=PT).prop_map(|(w, st, sh)| GlueV { w, st, sto: 0, sh })].boxed()
+        prop_oneof![
+            20 => Just(GlueV::default()),
+            4 => (0..=10 * PT, 0..=3 * PT, 0..=PT).prop_map(|(w, st, sh)| GlueV { w, st, sto: 0, sh }),
+            // \leftskip=0pt plus 1fil (centred or ragged-left text), negative \leftskip
+            1 => Just(GlueV { w: 0, st: PT, sto: 1, sh: 0 }),
+            1 => (-5 * PT..0).prop_map(|w| GlueV { w, st: 0, sto: 0, sh: 0 }),
+        ]
+        .boxed()
     }
 }
 
@@ -816,7 +1388,7 @@ struct Knobs {
 }
 
 fn knobs_strategy() -> BoxedStrategy<Knobs> {
-    let tolerance = prop_oneof![1 => Just(0), 1 => Just(50), 2 => Just(100), 5 => Just(200), 6 => Just(1000), 4 => Just(9999), 4 => Just(10000), 1 => Just(20000)];
+    let tolerance = prop_oneof![1 => Just(-1), 1 => Just(0), 1 => Just(50), 2 => Just(100), 5 => Just(200), 6 => Just(1000), 4 => Just(9999), 4 => Just(10000), 1 => Just(20000)];
     let emergency = prop_oneof![7 => Just(0), 3 => 1..=20 * PT];
     let force = prop_oneof![3 => Just(false), 1 => Just(true)];
     let line_penalty = prop_oneof![5 => Just(10), 1 => Just(0), 1 => Just(1), 1 => Just(100), 1 => Just(1000), 1 => Just(-3)];
@@ -841,8 +1413,8 @@ fn knobs_strategy() -> BoxedStrategy<Knobs> {
         .boxed()
 }
 
-fn natural_width(glyphs: &[i32], nodes: &[Node]) -> i64 {
-    let gw = |g: u8| glyphs[g as usize % N_GLYPHS] as i64;
+fn natural_width(glyphs: &[i32], glyphs2: &[i32], nodes: &[Node]) -> i64 {
+    let gw = |g: u8| glyph_width(glyphs, glyphs2, g);
     let mut t = 0i64;
     for n in nodes {
         match n {
@@ -889,22 +1461,66 @@ fn apply_grain(nodes: &mut [Node], grain: i32) {
     }
 }
 
+/// Multiply every dimension of the case by `k`.
+fn apply_scale(glyphs: &mut [i32], nodes: &mut [Node], skips: [&mut GlueV; 3], k: i32) {
+    let fe = |v: &mut Vec<Elem>| {
+        for e in v.iter_mut() {
+            if let Elem::Kern { w, .. } = e {
+                *w *= k;
+            }
+        }
+    };
+    for g in glyphs.iter_mut() {
+        *g *= k;
+    }
+    for n in nodes.iter_mut() {
+        match n {
+            Node::Kern { w, .. } => *w *= k,
+            Node::Glue(g) => {
+                g.w *= k;
+                g.st *= k;
+                g.sh *= k;
+            }
+            Node::Disc { pre, post, replace } => {
+                fe(pre);
+                fe(post);
+                fe(replace);
+            }
+            _ => {}
+        }
+    }
+    for g in skips {
+        g.w *= k;
+        g.st *= k;
+        g.sh *= k;
+    }
+}
+
 fn case_strategy() -> BoxedStrategy<KpCase> {
-    let profile = prop_oneof![1 => Just(false), 1 => Just(true)];
-    let body = profile.prop_flat_map(body_strategy);
-    let glyphs = prop::collection::vec(2 * PT..=8 * PT, N_GLYPHS..=N_GLYPHS);
+    // the two profiles (plain / wild separators) with equal weight; both strategy trees are built
+    // once (a `prop_flat_map` over the profile would rebuild the tree for every case)
+    let body = prop_oneof![1 => body_strategy(false), 1 => body_strategy(true)];
+    // two width tables (font 0 and font 1) of nine glyphs each
+    let glyphs = prop::collection::vec(2 * PT..=8 * PT, 2 * N_GLYPHS..=2 * N_GLYPHS);
     // dimensions are multiples of 1sp, 1/4pt or 1pt: coarse grains make exact demerit ties
     // between different sequences frequent
     let grain = prop_oneof![2 => Just(1i32), 2 => Just(PT / 4), 1 => Just(PT)];
-    // target number of lines and the relative width of lines 1..3 (percent of the target)
-    let shape = (0u8..8, prop::collection::vec(-30i32..=30, 1..=3), prop_oneof![3 => Just(1usize), 1 => Just(2usize), 1 => Just(3usize)]);
+    // everything times 1, 4 or 16: with 16 a 5pt glyph is 80pt wide, lines are thousands of
+    // points long and shortfalls beyond 110pt (the second arm of §108) are common
+    let scale = prop_oneof![6 => Just(1i32), 2 => Just(4i32), 2 => Just(16i32)];
+    // target number of lines, the relative width of lines 1, 2, … (percent of the target) and
+    // the number of explicit line widths (10%: four to six)
+    let n_widths = prop_oneof![27 => Just(1usize), 9 => Just(2usize), 9 => Just(3usize), 2 => Just(4usize), 2 => Just(5usize), 1 => Just(6usize)];
+    let shape = (0u8..8, prop::collection::vec(-30i32..=30, 1..=6), n_widths);
     let parfill = prop_oneof![
-        8 => Just(GlueV { w: 0, st: PT, sto: 1, sh: 0 }),
-        1 => Just(GlueV::default()),
-        1 => (0..=20 * PT).prop_map(|st| GlueV { w: 0, st, sto: 0, sh: 0 }),
+        16 => Just(GlueV { w: 0, st: PT, sto: 1, sh: 0 }),
+        2 => Just(GlueV::default()),
+        2 => (0..=20 * PT).prop_map(|st| GlueV { w: 0, st, sto: 0, sh: 0 }),
+        // \parfillskip with natural width and shrink (and finite or infinite stretch)
+        1 => (0..=10 * PT, 0..=20 * PT, 0..=3 * PT, 0u8..2).prop_map(|(w, st, sh, sto)| GlueV { w, st, sto, sh }),
     ];
-    (glyphs, body, grain, shape, parfill, knobs_strategy(), skip_strategy(false), skip_strategy(true))
-        .prop_map(|(mut glyphs, (mut nodes, words), grain, (lines_sel, pcts, n_widths), mut par_fill_skip, k, mut left_skip, mut right_skip)| {
+    (glyphs, body, (grain, scale), shape, parfill, knobs_strategy(), skip_strategy(false), skip_strategy(true))
+        .prop_map(|(mut glyphs, (mut nodes, words), (grain, scale), (lines_sel, pcts, n_widths), mut par_fill_skip, k, mut left_skip, mut right_skip)| {
             for g in glyphs.iter_mut() {
                 *g = grain_round(*g, grain);
             }
@@ -914,9 +1530,23 @@ fn case_strategy() -> BoxedStrategy<KpCase> {
                 g.st = grain_round(g.st, grain);
                 g.sh = grain_round(g.sh, grain);
             }
-            let total = natural_width(&glyphs, &nodes);
-            // 1..=8 lines, biased to 3..5, at least two words per line
-            let target = [3i64, 4, 5, 2, 6, 3, 8, 4][lines_sel as usize % 8].min((words as i64 / 3).max(1));
+            let mut emergency = grain_round(k.emergency, grain);
+            let mut glyphs2 = glyphs.split_off(N_GLYPHS);
+            // TeX's totals are 32-bit: keep the natural width of the whole paragraph below
+            // 2^29sp (8192pt) by lowering the scale where necessary
+            let unscaled = natural_width(&glyphs, &glyphs2, &nodes).abs().max(1);
+            let scale = [scale, 4, 1].into_iter().find(|k| unscaled * (*k as i64) < (1 << 29)).unwrap_or(1);
+            if scale != 1 {
+                apply_scale(&mut glyphs, &mut nodes, [&mut par_fill_skip, &mut left_skip, &mut right_skip], scale);
+                for g in glyphs2.iter_mut() {
+                    *g *= scale;
+                }
+                emergency *= scale;
+            }
+            let total = natural_width(&glyphs, &glyphs2, &nodes).max(0);
+            // 1..=8 lines, biased to 3..5, at least two words per line; paragraphs of one to
+            // three words are set in 1..=words lines
+            let target = if words <= 3 { (lines_sel as i64 % words as i64) + 1 } else { [3i64, 4, 5, 2, 6, 3, 8, 4][lines_sel as usize % 8].min((words as i64 / 3).max(1)) };
             let base = total / target;
             let mut line_widths = vec![];
             for i in 0..n_widths {
@@ -926,11 +1556,12 @@ fn case_strategy() -> BoxedStrategy<KpCase> {
             }
             KpCase {
                 glyphs,
+                glyphs2,
                 nodes,
                 par_fill_skip,
                 line_widths,
                 tolerance: k.tolerance,
-                emergency_stretch: grain_round(k.emergency, grain),
+                emergency_stretch: emergency,
                 force_solution: k.force,
                 line_penalty: k.line_penalty,
                 hyphen_penalty: k.hyphen_penalty,
@@ -946,12 +1577,31 @@ fn case_strategy() -> BoxedStrategy<KpCase> {
         .boxed()
 }
 
+/// Cases for `break_line_all_attempts`: a generated case plus independent `\pretolerance`
+/// and a signed `\emergencystretch`.
+fn pass_case_strategy() -> BoxedStrategy<PassCase> {
+    let pre = prop_oneof![2 => Just(-1), 1 => Just(0), 3 => Just(50), 5 => Just(100), 3 => Just(200), 2 => Just(1000), 1 => Just(10000)];
+    let tol = prop_oneof![1 => Just(50), 3 => Just(100), 6 => Just(200), 5 => Just(1000), 2 => Just(9999), 2 => Just(10000), 1 => Just(20000)];
+    // sign and presence of \emergencystretch; the magnitude is the generated case's
+    let emergency = prop_oneof![5 => Just(0i32), 4 => Just(1i32), 1 => Just(-1i32)];
+    (case_strategy(), pre, tol, emergency, 1..=20 * PT, prop_oneof![1 => Just(false), 2 => Just(true)])
+        .prop_map(|(mut case, pre_tolerance, tolerance, sign, magnitude, hyphenate)| {
+            case.tolerance = tolerance;
+            case.force_solution = false;
+            let m = if case.emergency_stretch != 0 { case.emergency_stretch } else { magnitude };
+            case.emergency_stretch = sign * m;
+            PassCase { case, pre_tolerance, hyphenate }
+        })
+        .boxed()
+}
+
 // -------------------------------------------------------------------------------------
 // Hand-written witnesses
 
 fn base_case(nodes: Vec<Node>, width_pt: i32) -> KpCase {
     KpCase {
         glyphs: vec![5 * PT; N_GLYPHS],
+        glyphs2: vec![7 * PT; N_GLYPHS],
         nodes,
         par_fill_skip: GlueV { w: 0, st: PT, sto: 1, sh: 0 },
         line_widths: vec![width_pt * PT],
@@ -1006,7 +1656,7 @@ fn witnesses() -> Vec<KpCase> {
                 n.push(sp(3, 3, 1));
             }
             n.extend(word(3));
-            n.push(Node::Disc { pre: vec![Elem::Char(HYPHEN)], post: vec![Elem::Char(1)], replace: vec![Elem::Char(2), Elem::Kern { w: PT / 2, explicit: false }] });
+            n.push(Node::Disc { pre: vec![Elem::Char(HYPHEN)], post: vec![Elem::Char(1)], replace: vec![Elem::Char(2), Elem::Kern { w: PT / 2, explicit: false, sub: 0 }] });
             n.extend(word(3));
         }
         let mut c = base_case(n, 58);
@@ -1029,14 +1679,14 @@ fn witnesses() -> Vec<KpCase> {
         out.push(c);
     }
     // W6: break at an explicit kern (followed by glue of width zero, so that D9 is not involved)
-    out.push(base_case(two_words(vec![Node::Kern { w: 2 * PT, explicit: true }, sp(0, 0, 0)]), 20));
+    out.push(base_case(two_words(vec![Node::Kern { w: 2 * PT, explicit: true, sub: 0 }, sp(0, 0, 0)]), 20));
     // W7 (§869): an explicit kern among the nodes replaced by a discretionary, followed by
     // glue, is not a breakpoint; the glue is (prev_p is the discretionary). Zero widths keep
     // D9 and the kern measurement out of the picture; \\exhyphenpenalty=10000 disables the
     // discretionary itself.
     {
         let mut n = word(4);
-        n.push(Node::Disc { pre: vec![], post: vec![], replace: vec![Elem::Kern { w: 0, explicit: true }] });
+        n.push(Node::Disc { pre: vec![], post: vec![], replace: vec![Elem::Kern { w: 0, explicit: true, sub: 0 }] });
         n.push(sp(0, 0, 0));
         n.extend(word(4));
         let mut c = base_case(n, 20);
@@ -1056,7 +1706,111 @@ fn witnesses() -> Vec<KpCase> {
         c.tolerance = 20000;
         out.push(c);
     }
+    let acc = |w: i32, sub: u8| Node::Kern { w: w * PT, explicit: false, sub };
+    // W9 (§868): glue after an accent kern is a legal breakpoint (`subtype(prev_p)<>explicit`);
+    // abcd + 1pt fills the 21pt line exactly
+    out.push(base_case(two_words(vec![acc(1, 1), sp(3, 1, 1)]), 21));
+    // W10 (§837): a math kern after the break glue is not discardable; it starts the second
+    // line, which then fills its 21pt exactly (no \parfillskip stretch)
+    {
+        let mut c = base_case(two_words(vec![sp(3, 1, 1), acc(1, 2)]), 20);
+        c.line_widths = vec![20 * PT, 21 * PT];
+        c.par_fill_skip = GlueV::default();
+        out.push(c);
+    }
+    // W11 (§866): an accent kern followed by glue is not a kern break; the only way to set
+    // this in 20pt lines would be to break at the kern
+    out.push(base_case(two_words(vec![sp(0, 0, 0), acc(0, 1), sp(0, 0, 0)]), 20));
+    // W12 (§863 `prev_p:=cur_p`): glue at the very beginning is not a breakpoint, a penalty is
+    {
+        let mut n = vec![sp(3, 1, 1)];
+        n.extend(two_words(vec![sp(3, 1, 1)]));
+        out.push(base_case(n, 23));
+        let mut n = vec![Node::Penalty(0)];
+        n.extend(two_words(vec![sp(3, 1, 1)]));
+        let mut c = base_case(n, 20);
+        c.tolerance = 10000;
+        out.push(c);
+    }
+    // W13 (§837): discardable run directly before \penalty10000\parfillskip: after a break at
+    // the first trailing glue the whole tail is passed over and the last line is empty
+    {
+        let mut n = two_words(vec![sp(3, 1, 1)]);
+        n.push(sp(3, 1, 0));
+        n.push(sp(3, 0, 0));
+        let mut c = base_case(n, 20);
+        c.tolerance = 10000;
+        out.push(c);
+    }
+    // W14 (§869): two adjacent discretionaries, the second with replaced text
+    {
+        let mut n = word(2);
+        n.push(Node::Disc { pre: vec![Elem::Char(HYPHEN)], post: vec![], replace: vec![] });
+        n.push(Node::Disc { pre: vec![Elem::Char(3), Elem::Char(HYPHEN)], post: vec![Elem::Char(4)], replace: vec![Elem::Char(5)] });
+        n.extend(word(2));
+        n.push(sp(3, 1, 1));
+        n.extend(word(4));
+        let mut c = base_case(n, 20);
+        c.tolerance = 10000;
+        out.push(c);
+    }
+    // W15: a word in font 1 (7pt glyphs) on a 28pt line, then a word in font 0 on a 20pt line
+    {
+        let mut n: Vec<Node> = (0..4).map(|i| Node::Char(i | FONT1)).collect();
+        n.push(sp(3, 1, 1));
+        n.extend(word(4));
+        let mut c = base_case(n, 28);
+        c.line_widths = vec![28 * PT, 20 * PT];
+        c.par_fill_skip = GlueV::default();
+        out.push(c);
+    }
     out
+}
+
+/// Hand-written paragraphs for `break_line_all_attempts`: six 20pt words, 3pt plus 2pt minus
+/// 1pt between them, 45pt lines: two words per line have badness 100.
+fn pass_witnesses() -> Vec<PassCase> {
+    let sp = |w: i32, st: i32, sh: i32| Node::Glue(GlueV { w: w * PT, st: st * PT, sto: 0, sh: sh * PT });
+    let mut n = vec![];
+    for i in 0..6 {
+        if i > 0 {
+            n.push(sp(3, 2, 1));
+        }
+        n.extend(word(4));
+    }
+    let mk = |pre: i32, tol: i32, em: i32, hyphenate: bool| {
+        let mut c = base_case(n.clone(), 45);
+        c.tolerance = tol;
+        c.emergency_stretch = em;
+        PassCase { case: c, pre_tolerance: pre, hyphenate }
+    };
+    vec![
+        // answer from pass 1
+        mk(100, 200, 0, false),
+        // pass 1 fails (b = 100 > 50), pass 2 is final and succeeds
+        mk(50, 200, 0, false),
+        // pass 2 is not final and succeeds
+        mk(50, 200, 10 * PT, false),
+        // passes 1 and 2 fail, the emergency pass succeeds (b = 0 with 22pt of stretch)
+        mk(50, 50, 20 * PT, false),
+        // no first pass
+        mk(-1, 200, 0, false),
+        // \emergencystretch < 0: the second pass is the final one (§863 `emergency_stretch<=0`).
+        // Four lines are not feasible, so with \looseness=1 only a final pass returns the three
+        // lines of badness 100; a third pass with 1pt less stretch would find b = 799 > 200.
+        {
+            let mut p = mk(50, 200, -PT, false);
+            p.case.looseness = 1;
+            p
+        },
+        // the hyphenator's discretionaries exist from pass 2 on only: 33pt lines need them
+        {
+            let mut p = mk(200, 200, 0, true);
+            p.case.line_widths = vec![33 * PT];
+            p.case.tolerance = 10000;
+            p
+        },
+    ]
 }
 
 // -------------------------------------------------------------------------------------
@@ -1406,7 +2160,15 @@ pub fn run(ctx: &Ctx) {
          terminated by \\penalty10000\\parfillskip, with 1-3 line widths derived from the natural width (target 1-8 lines), tolerance in {0,50,100,200,1000,9999,10000,20000}, \
          all demerit/penalty parameters, left/right skip, emergency stretch, looseness -2..2 and force_solution. Non-trivial = the returned sequence has >= 3 lines AND \
          at least two feasible sequences eligible for selection (same line count when looseness != 0) have different total demerits; distinct by the whole case. \
-         goldens: non-trivial = the DP optimum was compared with the total of TeX's chosen sequence (no artificial demerits in the chosen pass).",
+         goldens: non-trivial = the DP optimum was compared with the total of TeX's chosen sequence (no artificial demerits in the chosen pass). \
+         Since round 2 the generator also produces: characters of a second font with its own width table (per word fragment / discretionary element); accent and math kerns \
+         (1:10 against font kerns); 10% paragraphs of 1-3 words, 10% lists starting with a separator or a discretionary, 10% ending with a separator directly before the tail, \
+         5% discretionaries directly followed by another; 3.5% glue with one negated component (width, stretch, shrink, `plus -1fil`), half of the infinite glue exactly 1fil/1fill/1filll; \
+         all dimensions times 4 or 16 (20% each, reduced where the paragraph would exceed 8192pt); 4-6 line widths in 10%; tolerance -1; \\parfillskip with width/shrink, \
+         infinite or negative \\leftskip, negative \\rightskip. The Params fields pre_tolerance, tolerance, emergency_stretch and par_fill_skip hold decoy values that differ \
+         from the arguments of the pass. passes: the same generator with independent \\pretolerance in {-1,0,50,100,200,1000,10000}, \\tolerance, \\emergencystretch \
+         (50% zero, 40% positive, 10% negative) and in two thirds of the cases a hyphenator that inserts a discretionary into every run of >= 4 characters; non-trivial as for generated, \
+         judged on the pass that produces the answer.",
     );
     ctx.assume("instances on which 'line from a to b is overfull' is not upward closed in b (for some line start a, some line width in use, b up to the next forced break) are skipped and counted, as the property states");
     ctx.assume("instances on which some total TeX's algorithm has to represent (best total to a state + one more line, + |adj_demerits|) reaches awful_bad = 2^30-1 are skipped and counted: TeX's own comparisons are undefined there");
@@ -1414,10 +2176,16 @@ pub fn run(ctx: &Ctx) {
     ctx.assume("no math nodes, whatsits, boxes or rules in generated lists (the property quantifies over characters, kerns, glue, penalties and discretionaries); glue has finite shrink (TeX §825 rejects infinite shrink); a tolerance above 10000 means 10000 (TeX §863 clamps the threshold to inf_bad)");
     ctx.assume("break positions are never compared: the implementation's sequence is re-measured by the model and only legality, per-line badness and the total are judged");
     ctx.assume("with force_solution=true on an infeasible paragraph only legality of the returned sequence is checked (any forced sequence is acceptable)");
+    ctx.assume("looseness in a non-final pass: when the requested looseness cannot be met exactly the pass returns None although feasible sequences exist (TeX §873: `if (actual_looseness=looseness) or final_pass then goto done`); the property's 'as far as feasible' is what the final pass returns");
+    ctx.assume("instances skipped for one of the three reasons above are still judged on what holds without the precondition: no panic (except where totals overflow), final pass => Some (where no total can reach awful_bad), legality of every returned breakpoint, Some in a non-final pass => every line within the threshold (TeX §851-§855), all lines within the threshold => total demerits >= the exhaustive optimum, and under a looseness tie the total is the minimum for the returned line count");
+    ctx.assume("kerns of kind Accent and Math are 'not explicit': tex.web §837, §866, §868, §879 test `subtype(p)=explicit` only, so such a kern is never a breakpoint, is not discardable, and glue after it is a legal breakpoint (TeX itself never leaves a mu_glue kern in a horizontal list; boxworks' data structure allows it)");
+    ctx.assume("passes: the sequence of passes is tex.web §863/§873: a first pass at \\pretolerance without hyphenation unless \\pretolerance<0; a second pass at \\tolerance on the hyphenated list, final iff \\emergencystretch<=0; otherwise a final third pass with \\emergencystretch added to the background stretch. Which pass produces the answer is decided with the model (a pass fails iff the model says None is required); if that is undecidable for a pass before the answer (non-monotone, awful_bad, looseness tie with feasible sequences) the case is skipped");
+    ctx.assume("dimensions: the natural width of a generated paragraph stays below 8192pt so that TeX's 32-bit totals cannot overflow; the breaker's 64-bit totals and the model's agree with TeX there");
     ctx.assume("the golden traces under crates/boxworks-knuthplass/testdata are TeX's own \\tracingparagraphs output (repository README); the model is calibrated on every feasible break they contain");
 
-    // Diagnostic switch for sensitivity experiments only: VP_C04_ONLY=goldens|witnesses|generated
-    // restricts the run to one sub-check (replays are unaffected).
+    // Diagnostic switch for sensitivity experiments only:
+    // VP_C04_ONLY=goldens|witnesses|generated|pass_witnesses|passes restricts the run to one
+    // sub-check (replays are unaffected).
     let only = if ctx.is_generate() { std::env::var("VP_C04_ONLY").ok() } else { None };
     let wanted = |name: &str| only.as_deref().map(|o| o == name).unwrap_or(true);
 
@@ -1432,9 +2200,17 @@ pub fn run(ctx: &Ctx) {
     }
 
     // 3. the search
-    if !wanted("generated") {
-        return;
+    if wanted("generated") {
+        let n = ctx.tier.pick(300_000, 6_000_000);
+        run_generated(ctx, "generated", n, case_strategy, |c: &KpCase, case: &mut Case| check(ctx, c, case));
     }
-    let n = ctx.tier.pick(300_000, 6_000_000);
-    run_generated(ctx, "generated", n, case_strategy, |c: &KpCase, case: &mut Case| check(ctx, c, case));
+
+    // 4. pass sequencing of break_line_all_attempts
+    if wanted("pass_witnesses") {
+        run_list(ctx, "pass_witnesses", pass_witnesses(), |c: &PassCase, case: &mut Case| check_passes(ctx, c, case));
+    }
+    if wanted("passes") {
+        let n = ctx.tier.pick(60_000, 1_500_000);
+        run_generated(ctx, "passes", n, pass_case_strategy, |c: &PassCase, case: &mut Case| check_passes(ctx, c, case));
+    }
 }
